@@ -255,7 +255,7 @@ pub fn run(ctx: &Ctx) {
     ctx.assume("observable state = len, is_empty, query over universe + 200 fresh keys, per-element deletable count (cuckoo)");
     ctx.run_regressions(&[&C12]);
     let t = ctx.tier;
-    ctx.run_random(&C12, t.pick(12_000, 200_000), move || strategy(t));
+    ctx.run_random(&C12, t.pick(60_000, 1_000_000), move || strategy(t));
     ctx.require_class("failing_calls", "failed_insert", 0.2);
     ctx.require_class("failing_calls", "failed_union", 0.1);
     ctx.require_class("failing_calls", "failed_insert_after_evictions", 0.05);
